@@ -124,6 +124,7 @@ class RemoteServer():
                         ctx = self.contexts.get(ctx_id, None)
                         if ctx is None:
                             logger.warning('Context {} does not exist!', ctx_id)
+                            cli.close() # tell the client: its constructor is waiting for our answer
                             continue
 
                         ctx.call(cli)
